@@ -1,11 +1,11 @@
 #!/bin/sh
-# Run once after a fresh restore, offline: builds the Lean project (models, theorems, driver) and
-# the Go harness from files on disk only.
+# Run once after a fresh restore, offline: regenerates the facts extracted from /repo, then builds the
+# Go harness binaries, the Lean models/theorems and the driver executables of every claimed check,
+# from files on disk only.
 set -e
 cd "$(dirname "$0")"
 export GOFLAGS=-mod=mod GOPROXY=off GOSUMDB=off GOTOOLCHAIN=local CGO_ENABLED=0
 mkdir -p .build evidence
-true
-if [ -x tools/regen_all.sh ]; then tools/regen_all.sh; fi
-(cd lean && lake build Mtv Driver && lake build $(for i in 01 02 03 04 05 06 07 08 09 10 11 12 13 14 15 16 17 18 19 20; do echo drv-c$i; done))
+if [ -x tools/regen_all.sh ]; then tools/regen_all.sh || echo "setup: regeneration reported a failure"; fi
+python3 tools_setup.py
 echo "setup ok"
